@@ -182,6 +182,7 @@ class CompModel(object):
         ev = []
         for keep in (True, False):
             ev.append(dict(name="compress_file", keep_original=keep))
+            ev.append(dict(name="compress_file", keep_original=keep, check_after_compress=False))
             ev.append(dict(name="decompress_file", keep_original=keep))
         ev.append(dict(name="decompress_to_scratch", scratch=None))
         ev.append(dict(name="decompress_to_scratch", scratch="scratch"))
@@ -212,7 +213,8 @@ class CompModel(object):
             try:
                 sr = spikeglx.Reader(target, sort=False)
                 if name == "compress_file":
-                    out = sr.compress_file(keep_original=event["keep_original"], chunk_duration=CHUNK / FS, n_threads=1, quiet=True)
+                    extra = {"check_after_compress": False} if event.get("check_after_compress") is False else {}
+                    out = sr.compress_file(keep_original=event["keep_original"], chunk_duration=CHUNK / FS, n_threads=1, quiet=True, **extra)
                 elif name == "decompress_file":
                     out = sr.decompress_file(keep_original=event["keep_original"])
                 else:
